@@ -339,6 +339,32 @@ def gen_fleet_world(rng: random.Random, n_steps: int) -> Dict[str, Any]:
             "stations": stations, "bases": bases, "fleets": fl, "focus": "fleet"}
 
 
+def gen_whatif_world(rng: random.Random, n_steps: int) -> Dict[str, Any]:
+    """two single-plug fast-charging stations in one search cell, each occupied from the first step by a vehicle that
+    arrived nearly flat (so the waiting times at both are about equal), and vehicles that reach the charging threshold one
+    after the other: where the charging manager sends each of them depends on the charge levels of the vehicles that
+    are plugged in - exactly what a what-if variant of the state changes"""
+    dt = 60
+    c_near, c_far, c_mid = world.at(300, 0), world.at(-800, 0), world.at(0, 0)
+    stations = [{"id": "s_near", "lat": c_near[0], "lon": c_near[1], "plugs": [("DCFC", 1, True)]},
+                {"id": "s_far", "lat": c_far[0], "lon": c_far[1], "plugs": [("DCFC", 1, True)]}]
+    bases = [{"id": "b1", "lat": c_mid[0], "lon": c_mid[1], "station": None, "stalls": 8}]
+    vehicles = [{"id": "p1", "lat": c_near[0], "lon": c_near[1], "mech": "leaf_50", "soc": rng.choice([0.10, 0.102])},
+                {"id": "p2", "lat": c_far[0], "lon": c_far[1], "mech": "leaf_50", "soc": rng.choice([0.10, 0.104])}]
+    # leaf_50: about 364 km on a full battery, 0.8 kWh per idle hour = 0.097 km per minute; the manager sends a vehicle to
+    # charge when its range falls to 40 km + the distance to the nearest station
+    for k in range(4):
+        x = rng.uniform(-100, 100)
+        c = world.at(x, rng.uniform(-80, 80))
+        cross = 2 + 3 * k + rng.randint(0, 1)
+        rng_km = 40.0 + 0.3 + 0.0954 * cross + 0.06
+        vehicles.append({"id": f"c{k+1}", "lat": c[0], "lon": c[1], "mech": "leaf_50", "soc": rng_km / 357.632})
+    return {"name": "whatif", "dt": dt, "start": 0, "end": dt * max(n_steps, 600),     # a far horizon: charge-time estimates are capped by it
+            "cancel": 600, "vehicles": vehicles, "requests": [],
+            "stations": stations, "bases": bases, "focus": "whatif",
+            "dispatcher": {"charging_range_km_threshold": 40, "charging_range_km_soft_threshold": 90, "idle_time_out_seconds": 100000}}
+
+
 def gen_dispatch_world(rng: random.Random, n_steps: int) -> Dict[str, Any]:
     """only the built-in generators: several vehicles around bursts of requests, some requests already waiting in the
     initial state at the start time (as a co-simulation user adds them), start time 0"""
@@ -721,6 +747,8 @@ def gen_world(rng: random.Random, *, n_steps: int = 40, fleets: Optional[bool] =
         return gen_match_world(rng, n_steps)
     if focus == "ties":
         return gen_tie_world(rng, n_steps)
+    if focus == "whatif":
+        return gen_whatif_world(rng, n_steps)
     dt = dt or rng.choice([30, 60, 60, 120])
     ncell = rng.randint(3, 5)
     # cells 300..1500 m apart (one to three steps at 40 km/h and dt = 60)
